@@ -15,7 +15,7 @@ WORK = os.path.join(VERIF, "work")
 EVID = os.path.join(VERIF, "evidence")
 REPLAYS = os.path.join(VERIF, "replays")
 REPO = os.environ.get("VERIF_REPO", "/repo")      # (only the seed sandbox of tools_seed_sandbox.sh overrides this)
-BIN = os.path.join(HARNESS, "target", "debug")
+BIN = os.environ.get("VERIF_BIN", os.path.join(HARNESS, "target", "debug"))   # (override: coverage builds only)
 
 TLC_JAR = "/opt/veriftools/tla/tla2tools.jar"
 
@@ -75,6 +75,11 @@ def drive(plans, out_path, detail=0, timeout=900):
     plans_path = out_path + ".plans.json"
     with open(plans_path, "w") as f:
         json.dump(plans, f)
+    arch = os.environ.get("VERIF_PLAN_ARCHIVE")     # development aid: keep every plan (coverage measurements)
+    if arch:
+        os.makedirs(arch, exist_ok=True)
+        shutil.copy(plans_path, os.path.join(arch, "%s__%s" % (os.path.basename(os.path.dirname(out_path)),
+                                                               os.path.basename(plans_path))))
     rc, out = sh([os.path.join(BIN, "drive"), plans_path, out_path, str(detail)], timeout=timeout)
     if rc != 0:
         raise ToolError("drive failed rc=%d: %s" % (rc, out[-2000:]))
